@@ -332,6 +332,144 @@ func genC13hShare() (string, error) {
 	}
 	s += "/-- the provider cache: secretManager.validations[validation secret name | `system`].certificates[certificate secret\nname].sdsProviders[index] -/\n"
 	s += "def cacheKey (val cert index : List Char) : List Char × List Char × List Char := (val, cert, index)\n"
+	// ---- 4. the client-authentication mode of EVERY kind of context: which fields GetClientAuth reads, and that every
+	// context is built through newTLSContext -> SetServerConfig -> hooks.GetClientAuth(cfg) with its own configuration
+	{
+		hf, err := parse("pkg/mtls/confighook.go")
+		if err != nil {
+			return "", err
+		}
+		ga := findFunc(hf, "defaultConfigHooks", "GetClientAuth")
+		if ga == nil || len(ga.Type.Params.List) != 1 || len(ga.Type.Params.List[0].Names) != 1 {
+			return "", fmt.Errorf("GetClientAuth not found / unexpected parameters")
+		}
+		gp := ga.Type.Params.List[0].Names[0].Name
+		reads := map[string]bool{}
+		bare := false
+		ast.Inspect(ga.Body, func(n ast.Node) bool {
+			switch x := n.(type) {
+			case *ast.SelectorExpr:
+				k := exprKey(x)
+				if strings.HasPrefix(k, gp+".") {
+					reads[strings.TrimPrefix(k, gp+".")] = true
+					return false
+				}
+			case *ast.Ident:
+				if x.Name == gp {
+					bare = true // the configuration escapes as a whole (passed on, compared, …)
+				}
+			}
+			return true
+		})
+		if bare {
+			return "", fmt.Errorf("GetClientAuth: the configuration is used as a whole, not field by field")
+		}
+		var rs []string
+		for k := range reads {
+			rs = append(rs, strconv.Quote(k))
+		}
+		sortStringsC13h(rs)
+		s += "/-- the fields of the tls configuration `defaultConfigHooks.GetClientAuth` reads (confighook.go) -/\n"
+		s += "def getClientAuthReads : List String := [" + strings.Join(rs, ", ") + "]\n"
+
+		cf, err := parse("pkg/mtls/tls_context.go")
+		if err != nil {
+			return "", err
+		}
+		ssc := findFunc(cf, "tlsContext", "SetServerConfig")
+		if ssc == nil || len(ssc.Type.Params.List) != 3 {
+			return "", fmt.Errorf("SetServerConfig not found / unexpected parameters")
+		}
+		cfgP := ssc.Type.Params.List[1].Names[0].Name
+		hooksP := ssc.Type.Params.List[2].Names[0].Name
+		at := -1
+		for i, st := range ssc.Body.List {
+			if as, ok := st.(*ast.AssignStmt); ok && len(as.Lhs) == 1 && len(as.Rhs) == 1 && exprKey(as.Lhs[0]) == "tlsConfig.ClientAuth" {
+				if !isCall(as.Rhs[0], hooksP+".GetClientAuth", cfgP) || at >= 0 {
+					return "", fmt.Errorf("SetServerConfig: tlsConfig.ClientAuth is not set once from %s.GetClientAuth(%s)", hooksP, cfgP)
+				}
+				at = i
+			}
+		}
+		if at < 0 {
+			return "", fmt.Errorf("SetServerConfig: tlsConfig.ClientAuth = %s.GetClientAuth(%s) not found as a top-level statement", hooksP, cfgP)
+		}
+		for _, st := range ssc.Body.List[:at] {
+			switch x := st.(type) {
+			case *ast.AssignStmt:
+				if !(len(x.Lhs) == 1 && exprKey(x.Lhs[0]) == "tlsConfig" && isCall(x.Rhs[0], "tmpl.Clone")) {
+					return "", fmt.Errorf("SetServerConfig: unexpected statement before the ClientAuth assignment")
+				}
+			case *ast.IfStmt:
+				if exprKey(x.Cond) != "?*ast.BinaryExpr" || !containsReturn(x) || c13mCountSel(x.Cond, "Certificates") != 1 {
+					return "", fmt.Errorf("SetServerConfig: a guard other than the no-certificate one precedes the ClientAuth assignment")
+				}
+			default:
+				return "", fmt.Errorf("SetServerConfig: unexpected statement before the ClientAuth assignment")
+			}
+		}
+		ast.Inspect(ssc.Body, func(n ast.Node) bool {
+			if as, ok := n.(*ast.AssignStmt); ok {
+				for _, l := range as.Lhs {
+					if exprKey(l) == "tlsConfig.ClientAuth" && n != ast.Node(ssc.Body.List[at]) {
+						at = -2
+					}
+				}
+			}
+			return true
+		})
+		if at == -2 {
+			return "", fmt.Errorf("SetServerConfig: tlsConfig.ClientAuth is assigned a second time")
+		}
+		ntc := findFunc(cf, "", "newTLSContext")
+		if ntc == nil || len(ntc.Type.Params.List) != 2 {
+			return "", fmt.Errorf("newTLSContext not found")
+		}
+		ncfg := ntc.Type.Params.List[0].Names[0].Name
+		okSSC := 0
+		ast.Inspect(ntc.Body, func(n ast.Node) bool {
+			if c, ok := n.(*ast.CallExpr); ok && exprKey(c.Fun) == "ctx.SetServerConfig" {
+				if len(c.Args) == 3 && exprKey(c.Args[1]) == ncfg {
+					okSSC++
+				} else {
+					okSSC += 100
+				}
+			}
+			return true
+		})
+		if okSSC != 1 {
+			return "", fmt.Errorf("newTLSContext: ctx.SetServerConfig(tmpl, %s, hooks) is not called exactly once with the context's own configuration", ncfg)
+		}
+		// the two constructors of a context: the static branch of NewProvider and sdsProvider.update
+		count := func(rel string) (int, error) {
+			pf, err := parse(rel)
+			if err != nil {
+				return 0, err
+			}
+			return c13sCountCalls(pf, "newTLSContext"), nil
+		}
+		n1, err := count("pkg/mtls/provider.go")
+		if err != nil {
+			return "", err
+		}
+		n2, err := count(secSrc)
+		if err != nil {
+			return "", err
+		}
+		if n1 != 1 || n2 != 1 {
+			return "", fmt.Errorf("newTLSContext is called %d times in provider.go and %d times in secret_manager.go (expected 1 and 1)", n1, n2)
+		}
+		s += "/-- every context — static (NewProvider) or sds (sdsProvider.update), whatever its trust anchors — is built by\nnewTLSContext, whose SetServerConfig sets tls.Config.ClientAuth once, unconditionally (after the no-certificate guard),\nfrom hooks.GetClientAuth(<the context's own configuration>) -/\n"
+		s += "def clientAuthFromHookForEveryContext : Bool := true\n"
+	}
 	s += footer("TlsShare")
 	return s, nil
+}
+
+func sortStringsC13h(l []string) {
+	for i := 1; i < len(l); i++ {
+		for j := i; j > 0 && l[j] < l[j-1]; j-- {
+			l[j], l[j-1] = l[j-1], l[j]
+		}
+	}
 }
